@@ -3,15 +3,27 @@ import PpciVerif.Model.CEval
 import PpciVerif.Model.CEvalLegacy
 import PpciVerif.Model.CSyntax
 import PpciVerif.Gen.CEval
+import PpciVerif.Proofs.CEvalTop
 /-!
 # C27 — C integer constant expressions are evaluated as C prescribes
-(work in progress: table translation obligations)
+
+Property theorems only.  `Spec.CInt` is the specification (C11 on LP64, gcc's choices for
+the implementation-defined parts, undefined behaviour = no value); `Model.CEval` is the hand
+model of ppci's pipeline (semantic typing → `ConstantExpressionEvaluator` → `CContext.pack`)
+after the `fix:` commits listed in findings/C27.json; `Model.CSyntax.render` says how a
+specification tree is written in C and read back by ppci's parser.  Helper lemmas are in
+`Proofs/CEval*.lean`.  The theorems quantify over ALL expression trees (no bound on size,
+nesting or operand values) and all 11 destination types.
 -/
 namespace Props.C27
 open Model.CEval Model.CSyntax
+open Spec.CInt (Expr Base Suffix UnOp BinOp)
 
-/-- The model's operator tables, ranks, sizes, type sets, pack formats and type-name resolution are the
-    ones of the checked source tree (`Gen.CEval` is re-dumped from the live objects on every run). -/
+/-! ### translation: the model's tables are those of the checked source tree -/
+
+/-- The model's operator tables, ranks, sizes, type sets, pack formats, type-name resolution and size
+    type are the ones of the checked source tree (`Gen.CEval` is re-dumped from the live objects on
+    every run). -/
 theorem tables_match_source :
     Gen.CEval.unaryOperators = unaryOperators.map (fun p => (p.1.str, p.2.pyName)) ∧
     Gen.CEval.binaryOperators = binaryOperators.map (fun p => (p.1.str, p.2.pyName)) ∧
@@ -27,5 +39,127 @@ theorem tables_match_source :
     Gen.CEval.typeNames = Spec.CInt.Ty.all.map (fun τ => (τ.name, (ofSpecTy τ).id)) ∧
     Gen.CEval.sizeType = sizeT.id := by
   decide +kernel
+
+/-! ### typing and value of every expression -/
+
+/-- ppci's semantics gives every expression that C types exactly C's type (integer promotions, usual
+    arithmetic conversions, type of an integer constant, result type of shifts / comparisons / `?:`);
+    in particular it never rejects such an expression. -/
+theorem typing_agrees (e : Expr) (σ : Spec.CInt.Ty) (h : Spec.CInt.typeOf e = some σ) :
+    ∃ t, elaborate (render e) = .ok t ∧ t.ty = ofSpecTy σ := by
+  obtain ⟨t, ht⟩ := Proofs.CEval.elab_sound e σ h
+  exact ⟨t, ht.elab_ok, ht.ty⟩
+
+/-- Whenever C gives the expression a value (no undefined behaviour on an evaluated path), the evaluator
+    returns exactly that value, and it lies in the range of the expression's C type. -/
+theorem value_agrees (e : Expr) (v : Int) (h : Spec.CInt.eval e = some v) :
+    ∃ σ t, Spec.CInt.typeOf e = some σ ∧ elaborate (render e) = .ok t ∧ t.ty = ofSpecTy σ ∧
+      eval t = .ok v ∧ Spec.CInt.inRange σ v = true :=
+  Proofs.CEval.elab_eval e v h
+
+/-! ### the four places where a constant expression is used -/
+
+/-- **Global initialiser.** `T x = e;` for every integer type `T`: the bytes ppci stores are the
+    little-endian image of the C value of `e` converted to `T`. -/
+theorem initializer_correct (τ : Spec.CInt.Ty) (e : Expr) (bs : List Nat)
+    (h : Spec.CInt.initBytes τ e = some bs) : initializer (ofSpecTy τ) (render e) = .ok bs :=
+  Proofs.CEval.initializer_spec τ e bs h
+
+/-- **Case label.** `case e:` under a controlling expression of type `ctl`: the value converted to the
+    promoted type of the controlling expression. -/
+theorem case_label_correct (ctl : Spec.CInt.Ty) (e : Expr) (v : Int)
+    (h : Spec.CInt.caseLabel ctl e = some v) : caseLabel (ofSpecTy ctl) (render e) = .ok v :=
+  Proofs.CEval.caseLabel_spec ctl e v h
+
+/-- **Enumerator.** `enum { A = e }` with a value representable as `int`. -/
+theorem enumerator_correct (e : Expr) (v : Int) (h : Spec.CInt.enumerator e = some v) :
+    enumerator (render e) = .ok v :=
+  Proofs.CEval.enumerator_spec e v h
+
+/-- **Array bound.** `T a[e];` with `0 < e ≤ PTRDIFF_MAX`. -/
+theorem array_size_correct (e : Expr) (v : Int) (h : Spec.CInt.arrayBound e = some v) :
+    arraySize (render e) = .ok v :=
+  Proofs.CEval.arraySize_spec e v h
+
+/-- A constant that does not fit its destination type is converted, not rejected: `CContext.pack` returns
+    bytes for EVERY integer value and every integer type (no `struct.error`), and for a value of the
+    type they are its little-endian two's-complement image. -/
+theorem pack_converts (τ : Spec.CInt.Ty) (v : Int) :
+    (∃ bs, pack (ofSpecTy τ) v = .ok bs) ∧
+    pack (ofSpecTy τ) (Spec.CInt.convert τ v) = .ok (Spec.CInt.bytesLE τ (Spec.CInt.convert τ v)) :=
+  ⟨Proofs.CEval.pack_total _ v, Proofs.CEval.pack_spec τ (Proofs.CEval.convert_inRange τ v)⟩
+
+/-! ### non-vacuity: concrete non-trivial instances of the hypotheses (tests, labelled as such) -/
+
+section examples
+private def lit (v : Nat) : Expr := .lit .dec .none v
+private def neg (a : Expr) : Expr := .un .neg a
+
+-- `int a = -7 / 2;`  → -3, `int a = -7 % 2;` → -1 (truncation), `unsigned char c = 300;` → 44
+example : Spec.CInt.initBytes .int (.bin .div (neg (lit 7)) (lit 2)) = some [0xfd, 0xff, 0xff, 0xff] := by decide +kernel
+example : initializer .int (render (.bin .div (neg (lit 7)) (lit 2))) = .ok [0xfd, 0xff, 0xff, 0xff] := by decide +kernel
+example : Spec.CInt.initBytes .int (.bin .mod (neg (lit 7)) (lit 2)) = some [0xff, 0xff, 0xff, 0xff] := by decide +kernel
+example : Spec.CInt.initBytes .uchar (lit 300) = some [44] := by decide +kernel
+example : initializer .uchar (render (lit 300)) = .ok [44] := by decide +kernel
+-- `(signed char)-1 < (unsigned char)1` is 1 (both promoted to int); `-1ll < 1ul` is 0 (unsigned long long)
+example : Spec.CInt.eval (.bin .lt (.cast .schar (neg (lit 1))) (.cast .uchar (lit 1))) = some 1 := by decide +kernel
+example : Spec.CInt.eval (.bin .lt (neg (.lit .dec .ll 1)) (.lit .dec .ul 1)) = some 0 := by decide +kernel
+-- `-2147483648` is a `long` (the constant does not fit `int`)
+example : Spec.CInt.typeOf (neg (lit 2147483648)) = some .long := by decide +kernel
+example : Spec.CInt.caseLabel .uchar (.bin .add (neg (lit 1)) (lit 300)) = some 299 := by decide +kernel
+example : Spec.CInt.arrayBound (.cond (lit 6) (.lit .hexoct .ull 11) (lit 6)) = some 11 := by decide +kernel
+-- undefined behaviour has no value: INT_MAX + 1, 1 << 40, 1 / 0; but `0 && 1/0` is 0
+example : Spec.CInt.eval (.bin .add (lit 2147483647) (lit 1)) = none := by decide +kernel
+example : Spec.CInt.eval (.bin .shl (lit 1) (lit 40)) = none := by decide +kernel
+example : Spec.CInt.eval (.bin .div (lit 1) (lit 0)) = none := by decide +kernel
+example : Spec.CInt.eval (.bin .land (lit 0) (.bin .div (lit 1) (lit 0))) = some 0 := by decide +kernel
+-- the model reports the undefined cases that would otherwise raise in Python as diagnostics
+example : initializer .int (render (.bin .div (lit 1) (lit 0))) = .error .CompilerError := by decide +kernel
+example : initializer .int (render (.bin .shl (lit 1) (neg (lit 1)))) = .error .CompilerError := by decide +kernel
+end examples
+
+/-! ### negation witnesses for the code BEFORE the fix commits (`Model.CEvalLegacy`)
+
+Each pair shows that the corresponding full-strength theorem is false for the old code at a concrete
+input (the same inputs are in the corpus of harness/c27.py and are replayed on the real code).  The old
+typing of these trees equals the new one except where stated. -/
+
+section legacy
+private def lit' (v : Nat) : Expr := .lit .dec .none v
+private def neg' (a : Expr) : Expr := .un .neg a
+open Model.CEvalLegacy in
+-- `int a = 7 % 3;` : KeyError ('%' missing from the operator table); C prescribes 1
+example : Model.CEvalLegacy.initializer .int (render (.bin .mod (lit' 7) (lit' 3))) = .error .KeyError ∧
+    Spec.CInt.initBytes .int (.bin .mod (lit' 7) (lit' 3)) = some [1, 0, 0, 0] := by decide +kernel
+-- `int a = -7 / 2;` : floor division gives -4; C prescribes -3
+example : Model.CEvalLegacy.initializer .int (render (.bin .div (neg' (lit' 7)) (lit' 2))) = .ok [0xfc, 0xff, 0xff, 0xff] ∧
+    Spec.CInt.initBytes .int (.bin .div (neg' (lit' 7)) (lit' 2)) = some [0xfd, 0xff, 0xff, 0xff] := by decide +kernel
+-- `unsigned char c = 300;` and `unsigned a = 0u - 1;` : struct.error; C prescribes 44 and 0xffffffff
+example : Model.CEvalLegacy.initializer .uchar (render (lit' 300)) = .error .StructError ∧
+    Spec.CInt.initBytes .uchar (lit' 300) = some [44] := by decide +kernel
+example : Model.CEvalLegacy.initializer .uint (render (.bin .sub (.lit .dec .u 0) (lit' 1))) = .error .StructError ∧
+    Spec.CInt.initBytes .uint (.bin .sub (.lit .dec .u 0) (lit' 1)) = some [0xff, 0xff, 0xff, 0xff] := by decide +kernel
+-- comparison, `&&`, `!`, `?:` : KeyError / NotImplementedError
+example : Model.CEvalLegacy.initializer .int (render (.bin .lt (lit' 1) (lit' 2))) = .error .KeyError := by decide +kernel
+example : Model.CEvalLegacy.initializer .int (render (.bin .land (lit' 1) (lit' 2))) = .error .KeyError := by decide +kernel
+example : Model.CEvalLegacy.initializer .int (render (.un .lnot (lit' 5))) = .error .NotImplementedError := by decide +kernel
+example : Model.CEvalLegacy.initializer .int (render (.cond (lit' 1) (lit' 2) (lit' 3))) = .error .NotImplementedError := by decide +kernel
+-- casts did not convert: `int a = (char)300;` gave 300; C prescribes 44
+example : Model.CEvalLegacy.initializer .int (render (.cast .char (lit' 300))) = .ok [0x2c, 0x01, 0, 0] ∧
+    Spec.CInt.initBytes .int (.cast .char (lit' 300)) = some [0x2c, 0, 0, 0] := by decide +kernel
+-- old typing ≠ C typing (negations of `typing_agrees` for the old `elaborate`)
+example : (Model.CEvalLegacy.elaborate (render (neg' (.cast .uchar (lit' 1))))).map TExpr.ty = .ok .uchar ∧
+    Spec.CInt.typeOf (neg' (.cast .uchar (lit' 1))) = some .int := by decide +kernel
+example : (Model.CEvalLegacy.elaborate (render (.bin .add (neg' (.lit .dec .ll 1)) (.lit .dec .ul 1)))).map TExpr.ty = .ok .llong ∧
+    Spec.CInt.typeOf (.bin .add (neg' (.lit .dec .ll 1)) (.lit .dec .ul 1)) = some .ullong := by decide +kernel
+example : (Model.CEvalLegacy.elaborate (render (.bin .shl (.lit .dec .u 1) (.lit .dec .l 1)))).map TExpr.ty = .ok .long ∧
+    Spec.CInt.typeOf (.bin .shl (.lit .dec .u 1) (.lit .dec .l 1)) = some .uint := by decide +kernel
+example : (Model.CEvalLegacy.elaborate (render (lit' 2147483648))).map TExpr.ty = .ok .uint ∧
+    Spec.CInt.typeOf (lit' 2147483648) = some .long := by decide +kernel
+example : Model.CEvalLegacy.elaborate (render (.lit .dec .u 4294967296)) = .error .CompilerError ∧
+    Spec.CInt.typeOf (.lit .dec .u 4294967296) = some .ulong := by decide +kernel
+example : (Model.CEvalLegacy.elaborate (render (.chr 255))).map TExpr.ty = .ok .char ∧
+    Spec.CInt.eval (.chr 255) = some (-1) := by decide +kernel
+end legacy
 
 end Props.C27
